@@ -321,6 +321,20 @@ impl<'a> Run<'a> {
         let was_known = self.shadow.contains_key(&k);
         let never_put = k + 1 == self.next && !was_known;
         let shape0 = self.shape();
+        // is the key a ghost right now? (0 = no, 1 = 2Q ghost / ARC recent ghost, 2 = ARC frequent ghost)
+        let ghost0: u8 = match &self.c {
+            BigC::TwoQ(c) => c.verif_ghost().contains(&k) as u8,
+            BigC::Arc(c) => {
+                if c.verif_recent_evict().contains(&k) {
+                    1
+                } else if c.verif_frequent_evict().contains(&k) {
+                    2
+                } else {
+                    0
+                }
+            }
+            _ => 0,
+        };
         let r = each!(&mut self.c, c => c.put(k, TVal::new(tok)));
         let (text, ev, upd) = pr(r);
         if check {
@@ -383,6 +397,21 @@ impl<'a> Run<'a> {
             };
             if bad {
                 return Err(vio(p, self.step, "victim-list", format!("{what}: a never-seen key arrived at the full cache with (first list, second list, quota / p) = ({r0}, {f0}, {t}); afterwards the lists hold ({r1}, {f1}): the victim came from the wrong list")));
+            }
+        }
+        // ... and when a ghost key is put back into a full cache (it goes to the second list)
+        if check && ghost0 != 0 && len0 == cap && matches!(p, BigProp::C08 | BigProp::C09) {
+            let (r0, f0, _) = shape0;
+            let (r1, f1, t1) = self.shape();
+            // 2Q: the recent queue gives the victim if it is over its quota; ARC: the recent list
+            // if it is longer than the (already adapted) p, or equal to it on a frequent-ghost hit
+            let from_first = match &self.c {
+                BigC::TwoQ(_) => r0 > 0 && (r0 > t1 || f0 == 0),
+                _ => r0 > 0 && (r0 > t1 || (ghost0 == 2 && r0 == t1) || f0 == 0),
+            };
+            let want = if from_first { (r0 - 1, f0 + 1) } else { (r0, f0) };
+            if (r1, f1) != want {
+                return Err(vio(p, self.step, "victim-list-ghost-hit", format!("{what}: the key was a ghost (list {ghost0}) and the cache full with (first list, second list) = ({r0}, {f0}), quota / adapted p = {t1}; afterwards the lists hold ({r1}, {f1}), expected {:?}: the victim came from the wrong list", want)));
             }
         }
         if p == BigProp::C01 && check {
@@ -887,4 +916,107 @@ pub fn arc_adaptation_grid(thorough: bool, workers: usize) -> (u64, u64, Option<
         }
     }
     out
+}
+
+// ------------------------------------------------------------------ C08: the victim rule around the quota, at several scales
+
+/// Drives a 2Q cache to `recent_len == quota + d` with a full cache and a non-empty ghost list,
+/// then checks which queue gives up the victim for (a) a put of a ghost key and (b) a put of a
+/// never-seen key, against the statement: recent queue if over its quota (at quota also counts
+/// for a brand-new key), else the frequent queue, falling back to whichever is non-empty.
+fn twoq_case(size: usize, rr: f64, d: i64, ghost_put: bool) -> Result<bool, String> {
+    let mut c: TwoQueueCache<u64, u32> = match TwoQueueCache::with_2q_parameters(size, rr, 0.5) {
+        Ok(c) => c,
+        Err(_) => return Ok(false),
+    };
+    let quota = c.verif_recent_quota() as i64;
+    let target = quota + d;
+    if target < 0 || target as usize > size {
+        return Ok(false);
+    }
+    let target = target as usize;
+    let mut next = 0u64;
+    for _ in 0..size {
+        c.put(next, 0);
+        next += 1;
+    }
+    // promote the oldest keys until the recent queue has `target` entries (+1: the scan below
+    // evicts one and adds one)
+    let mut k = 0u64;
+    while c.recent_len() > target && k < next {
+        c.get(&k);
+        k += 1;
+    }
+    if c.recent_len() != target || c.len() != size {
+        return Ok(false);
+    }
+    // make ghosts: new keys at a full cache (each evicts one entry and enters the recent queue)
+    for _ in 0..3 {
+        c.put(next, 0);
+        next += 1;
+    }
+    // restore the recent length (the scan may have changed it by evicting from the frequent queue)
+    let mut guard = 0;
+    while c.recent_len() > target && guard < 8 {
+        if let Some(k) = c.recent_keys_lru().next().copied() {
+            c.get(&k);
+        }
+        guard += 1;
+    }
+    if c.recent_len() != target || c.len() != size || c.ghost_len() == 0 {
+        return Ok(false);
+    }
+    let (r0, f0) = (c.recent_len(), c.frequent_len());
+    let key = if ghost_put { *c.ghost_keys().next().unwrap() } else { next };
+    c.put(key, 1);
+    let (r1, f1) = (c.recent_len(), c.frequent_len());
+    let over = if ghost_put { (r0 as i64) > quota } else { (r0 as i64) >= quota };
+    let from_recent = r0 > 0 && (over || f0 == 0);
+    // the key itself goes to the frequent queue (ghost) or to the recent queue (never seen)
+    let want = match (from_recent, ghost_put) {
+        (true, true) => (r0 - 1, f0 + 1),
+        (false, true) => (r0, f0),
+        (true, false) => (r0, f0),
+        (false, false) => (r0 + 1, f0 - 1),
+    };
+    if (r1, f1) != want {
+        return Err(format!(
+            "2Q size {size}, recent ratio {rr} (quota {quota}): full cache with {r0} recent and {f0} frequent entries; a put of a {} key must take the victim from the {} queue: expected ({}, {}) afterwards, found ({r1}, {f1})",
+            if ghost_put { "ghost" } else { "never-seen" },
+            if from_recent { "recent" } else { "frequent" },
+            want.0,
+            want.1
+        ));
+    }
+    Ok(true)
+}
+
+pub fn twoq_victim_grid(thorough: bool) -> (u64, u64, Option<String>) {
+    let mut sizes: Vec<(usize, f64)> = vec![(2, 0.5), (3, 0.34), (4, 0.25), (8, 0.25), (8, 0.0), (8, 1.0), (9, 0.5), (64, 0.25), (100, 0.29), (1024, 0.25), (1025, 0.25), (4096, 0.25), (4100, 0.5), (5000, 0.3)];
+    if thorough {
+        sizes.extend([(65_536usize, 0.25), (70_000, 0.5), (262_144, 0.25), (300_000, 0.9)]);
+    } else {
+        sizes.push((66_000, 0.25));
+    }
+    let (mut reached, mut tried, mut bad) = (0u64, 0u64, None);
+    for (size, rr) in sizes {
+        for d in -2i64..=3 {
+            for ghost_put in [true, false] {
+                tried += 1;
+                match catch_unwind(AssertUnwindSafe(|| twoq_case(size, rr, d, ghost_put))) {
+                    Ok(Ok(true)) => reached += 1,
+                    Ok(Ok(false)) => {}
+                    Ok(Err(e)) => {
+                        if bad.is_none() {
+                            bad = Some(e);
+                        }
+                    }
+                    Err(_) => {
+                        let _ = take_last_panic();
+                    }
+                }
+            }
+        }
+    }
+    (reached, tried, bad)
 }
